@@ -240,6 +240,8 @@ LibStep(w) ==
      \/ SCN = "keys" /\ KeysLib(w)
      \/ SCN = "timed" /\ (TimedLib(w) \/ MutexLib(w))
 
+MutFeNoSignal == "fe_nosignal"
+MutOnceCompletedWins == "once_completed_wins"
 Finished == \E w \in W : cur[w] # 0 /\ th[cur[w]].tag = 0 /\ th[cur[w]].pc.k = "done"
 AllReaped == \A t \in Tag : t # 0 /\ tg[t].hs # "none" => tg[t].reaped = 1
 Terminated == Finished /\ AllReaped /\ UNCHANGED mvars
